@@ -22,6 +22,17 @@ pub struct Ctx {
 	pub oracle_failures: Vec<String>,
 	pub counts: BTreeMap<String, u64>,
 	pub lines: u64,
+	/// Encoded values of mixed types, for heterogeneous concatenations (C14).
+	pub pool: Vec<PoolEntry>,
+}
+
+pub struct PoolEntry {
+	pub name: &'static str,
+	pub ty: fn(usize) -> String,
+	pub bytes: Vec<u8>,
+	pub val: String,
+	/// decode from a slice: (answer line, remaining length on success)
+	pub dec: fn(&[u8]) -> (String, Option<usize>),
 }
 
 impl Ctx {
@@ -91,6 +102,7 @@ fn main() {
 		oracle_failures: vec![],
 		counts: BTreeMap::new(),
 		lines: 0,
+		pool: vec![],
 	};
 	// panics inside the crate are outcomes, not noise
 	std::panic::set_hook(Box::new(|_| {}));
